@@ -46,7 +46,7 @@ fn passthrough(ctx: &Ctx, idx: u32, rep: &std::path::Path) -> Exec {
     Exec::cmd(&ctx.vchild).args(&["stage", &idx.to_string(), "1", "0", "0", "0", "0"]).arg(rep)
 }
 
-fn case(ctx: &mut Ctx, rng: &mut Rng, i: u64, sigpipe_blocked: bool) {
+fn case(ctx: &mut Ctx, rng: &mut Rng, i: u64, sigpipe_blocked: bool, free_std: u8) {
     let handle = HANDLES[(i % HANDLES.len() as u64) as usize];
     let b = &BEHAVIOURS[((i / HANDLES.len() as u64) % BEHAVIOURS.len() as u64) as usize];
     let drop_point = (i / (HANDLES.len() * BEHAVIOURS.len()) as u64) % 3; // 0 nothing consumed, 1 partly, 2 fully
@@ -96,7 +96,7 @@ fn case(ctx: &mut Ctx, rng: &mut Rng, i: u64, sigpipe_blocked: bool) {
         _ => u64::MAX,
     };
     let want_read = if unbounded { want_read.min(500_000) } else { want_read };
-    let tag = format!("{}/{}/{}{}{}", handle, b.name, ["nothing-consumed", "partly-consumed", "fully-consumed"][drop_point as usize], if detached { "/detached" } else { "" }, if sigpipe_blocked { "/spawned-with-SIGPIPE-blocked" } else { "" });
+    let tag = format!("{}/{}/{}{}{}{}", handle, b.name, ["nothing-consumed", "partly-consumed", "fully-consumed"][drop_point as usize], if detached { "/detached" } else { "" }, if sigpipe_blocked { "/spawned-with-SIGPIPE-blocked" } else { "" }, if free_std != 0 { format!("/parent-fds-closed:{:03b}", free_std) } else { String::new() });
     // the environment of the spawning thread is the caller's business: here it has SIGPIPE (and SIGUSR1) blocked
     let mut old_mask: libc::sigset_t = unsafe { std::mem::zeroed() };
     if sigpipe_blocked {
@@ -110,6 +110,14 @@ fn case(ctx: &mut Ctx, rng: &mut Rng, i: u64, sigpipe_blocked: bool) {
         ctx.count("handles_exercised_with_SIGPIPE_blocked_in_the_spawning_thread", 1);
     }
     let input = vec![b'i'; 150_000];
+    // the caller is a daemon that has closed some of its own standard descriptors: the pipe ends the handle keeps get
+    // the numbers 0..2, which the child is about to use for its own streams
+    let holes = if free_std != 0 {
+        ctx.count("handles_exercised_with_parent_standard_descriptors_closed", 1);
+        Some(spawn::StdHoles::make(free_std))
+    } else {
+        None
+    };
     let m = run::monitored(|| -> Result<String, String> {
         match handle {
             "popen" => {
@@ -184,6 +192,7 @@ fn case(ctx: &mut Ctx, rng: &mut Rng, i: u64, sigpipe_blocked: bool) {
     if sigpipe_blocked {
         unsafe { libc::pthread_sigmask(libc::SIG_SETMASK, &old_mask, std::ptr::null_mut()) };
     }
+    drop(holes);
     let evs = m.events();
     let pids = spawn::forked_pids(&evs);
     ctx.count("handles_exercised", 1);
@@ -255,6 +264,11 @@ pub fn run(ctx: &mut Ctx) {
     let total = (HANDLES.len() * BEHAVIOURS.len() * 3 * 2) as u64;
     ctx.max("tuples_enumerated", total as i64);
     let reps = ctx.n(3, 40);
-    // every other repetition runs with SIGPIPE blocked in the spawning thread
-    ctx.family("tuples", total * reps, move |ctx, rng, i| case(ctx, rng, i % total, (i / total) % 2 == 1));
+    // every third repetition runs with SIGPIPE blocked in the spawning thread
+    // ... and every third one with some of the caller's own standard descriptors closed
+    ctx.family("tuples", total * reps, move |ctx, rng, i| {
+        let rep = i / total;
+        let free = if rep % 3 == 2 { [1u8, 3, 2, 5, 7, 4, 6][((i + rep) % 7) as usize] } else { 0 };
+        case(ctx, rng, i % total, rep % 3 == 1, free)
+    });
 }
